@@ -21,9 +21,11 @@
 //  * Match(text, subject) = Parse + Match; a refused text is a precondition failure of the calling harness
 //    (HARNESS-ABORT), never a silent "false".
 //  * Numeric ranges: the documented meaning is "ASCII representations of integers in the range".  Match() says true
-//    for an all-digit, non-empty subject whose value lies in one of the ranges (leading zeros allowed), false otherwise.
-//    What a subject that does not begin with a digit, a value beyond 2^32-1 or the clause "-" (doc: "<-> matches
-//    everything") should do is unspecified: NumericCorner() tells the caller so that it can exclude and count.
+//    for an all-digit, non-empty subject whose value lies in one of the ranges (leading zeros allowed), false for every
+//    other subject ("<19-21> would match 19, 20, and 21 only": a sign, white space, letters, the empty string do not
+//    match, and do match under a leading ~).  Unspecified, NumericCorner() tells the caller so that it can exclude and
+//    count: a list with the fully open clause "-" against a subject that is not a digit string (doc: "<-> will match
+//    everything, same as *" contradicts "only integers"), values beyond 2^32-1, reversed bounds.
 #ifndef VERIF_REFWILD_H
 #define VERIF_REFWILD_H
 #include <string>
@@ -154,12 +156,11 @@ static inline const char * NumericCorner(const Pattern & p, const std::string & 
 {
    if (!p.numeric) return NULL;
    for (size_t i = 0; i < p.ranges.size(); i++) {
-      if (!p.ranges[i].hasLo && !p.ranges[i].hasHi) return "open_clause";
+      if (!p.ranges[i].hasLo && !p.ranges[i].hasHi && !AllDigits(subject)) return "open_clause_nondigit_subject";
       if ((p.ranges[i].hasLo && p.ranges[i].lo > 0xFFFFFFFFULL) || (p.ranges[i].hasHi && p.ranges[i].hi > 0xFFFFFFFFULL)) return "bound_beyond_uint32";
       if (p.ranges[i].hasLo && p.ranges[i].hasHi && p.ranges[i].lo > p.ranges[i].hi) return "reversed_bounds";
    }
    if (p.ranges.empty()) return "no_clause";
-   if (subject.empty() || subject[0] < '0' || subject[0] > '9') return "subject_not_digit_leading";
    if (AllDigits(subject) && DigitsValueSaturating(subject) > 0xFFFFFFFFULL) return "subject_beyond_uint32";
    return NULL;
 }
